@@ -1,5 +1,6 @@
 import Srctools.Proofs.C17Collapse
 import Srctools.Proofs.C17Names
+import Srctools.Proofs.C17IO
 import Mathlib.Algebra.Field.Rat
 import Srctools.Proofs.Heap
 /-!
@@ -261,6 +262,90 @@ theorem C17_subst_empty_table (d rest : List Char) :
     rw [substitute_var [] d rest d 0 this]; simp
   · decide +kernel
 
+/-- **A supplied variable wins; an unsupplied one falls back as coded.** The longest defined name
+after a `$` is replaced by the value the instance supplies; when no defined name matches, the
+identifier that follows is replaced by the default handed to `substitute` (`''` in `collapse_one`)
+— whatever a `func_instance_parms` entity declares, since the collapse takes no declaration. -/
+theorem C17_var_supplied_wins (t : FixTable) (d rest : List Char) :
+    (∀ k v, firstMatch (alternatives t) rest = some k → lookupFix t k = some v →
+        substitute t d ('$' :: rest) = v ++ substitute t d (rest.drop k.length)) ∧
+    (∀ n, t.isEmpty = false → firstMatch (alternatives t) rest = none → identLen rest = n + 1 →
+        substitute t d ('$' :: rest) = d ++ substitute t d (rest.drop (n + 1))) :=
+  ⟨fun k v hm hv => substitute_supplied t d rest k v hm hv,
+   fun n ht hm hid => substitute_unsupplied t ht d rest n hm hid⟩
+
+/-- `func_instance_parms`: `name type default…` is read as that name, that type token and the
+default = everything after the second space, spaces included (`split(' ', 2)`); with the former
+`split(' ', 3)` a default containing a space was lost. -/
+theorem C17_parms_decl (name ty dflt : List Char) (hn : ' ' ∉ name) (ht : ' ' ∉ ty) :
+    parseParam 2 (name ++ ' ' :: (ty ++ ' ' :: dflt)) = ⟨name, some ty, dflt⟩ ∧
+    (parseParam 3 ['$','t',' ','s',' ','a',' ','b']).dflt = [] ∧
+    (parseParam 2 ['$','t',' ','s',' ','a',' ','b']).dflt = ['a',' ','b'] :=
+  ⟨parseParam_three name ty dflt hn ht, by decide, by decide⟩
+
+/-! ## instance inputs / outputs (`func_instance_io_proxy`) -/
+
+/-- **Inside the instance**: every output of a copied entity keeps all its fields except the
+target, which gets the fixup name of the (substituted) target — the same string the entity of
+that name receives, so connections inside the instance follow the renamed entities. -/
+theorem C17_io_inside (I : IOInst) (F : IOFile) (i j : Nat) (e e' : IOEnt) (o' : Out)
+    (h : o' ∈ collapseOuts I e.outs) :
+    ∃ o ∈ e.outs, o' = { o with target := I.rename o.target } ∧
+      (o.target = e'.name → o'.target = (collapseIOEnt I F j e').1) ∧
+      (collapseIOEnt I F i e).1 = fixupName I.style I.name (substitute I.fixup [] e.name) := by
+  obtain ⟨o, ho, rfl⟩ := (mem_collapseOuts I e.outs o').mp h
+  exact ⟨o, ho, rfl, fun ht => by simp [collapseIOEnt, ht], rfl⟩
+
+/-- **Into the instance**: an output of the map addressed to the instance as
+`instance:local;Input`, for which the proxy relays (`local`, `Input`) — compared casefolded — is
+re-routed to the *renamed* real target with the proxy's input; delays add, fire counts combine,
+the `instance:` marker is cleared, and that target is the name the collapsed entity has. -/
+theorem C17_io_reroute (I : IOInst) (F : IOFile) (o p : Out) (n : List Char)
+    (hi : o.instIn = some n) (ht : foldStr o.target = foldStr I.name)
+    (hp : lookupLast F.proxyInputs (foldStr n, foldStr o.input) = some p) :
+    (reroute I F o).target = fixupName I.style I.name (substitute I.fixup [] p.target) ∧
+    (reroute I F o).input = p.input ∧ (reroute I F o).instIn = none ∧
+    (reroute I F o).output = o.output ∧ (reroute I F o).delay = o.delay + p.delay ∧
+    (reroute I F o).times = combineTimes o.times p.times ∧
+    (∀ (j : Nat) (e : IOEnt), e.name = p.target → (reroute I F o).target = (collapseIOEnt I F j e).1) := by
+  rw [reroute_hit I F o p n hi ht hp]
+  exact ⟨rfl, rfl, rfl, rfl, rfl, rfl, fun j e he => by simp [collapseIOEnt, IOInst.rename, he]⟩
+
+/-- **Nothing outside is touched**: an output of the map that is not an `instance:` connection, is
+addressed to another name, or names something the proxy does not relay, is left exactly as it is. -/
+theorem C17_io_untouched (I : IOInst) (F : IOFile) (o : Out)
+    (h : o.instIn = none ∨ foldStr o.target ≠ foldStr I.name ∨
+         ∀ n, o.instIn = some n → lookupLast F.proxyInputs (foldStr n, foldStr o.input) = none) :
+    reroute I F o = o := reroute_untouched I F o h
+
+/-- **Out of the instance**: every connection added for an `instance:local;Output` output of the
+`func_instance` is `Output.combine` of the relayed output and that outer output: it fires on the
+inner output, and goes to the OUTER target and input verbatim (not renamed). -/
+theorem C17_io_out (I : IOInst) (F : IOFile) (i : Nat) (c : Out) (h : (i, c) ∈ instOutputs I F) :
+    ∃ o ∈ I.outs, ∃ n p, o.instOut = some n ∧
+      lookupLast F.proxyOutputs (foldStr n, foldStr o.output) = some (i, p) ∧
+      c.output = p.output ∧ c.target = o.target ∧ c.input = o.input ∧
+      c.delay = p.delay + o.delay ∧ c.times = combineTimes p.times o.times := by
+  obtain ⟨o, ho, n, p, hn, hl, rfl⟩ := mem_instOutputs I F i c h
+  exact ⟨o, ho, n, p, hn, hl, rfl, rfl, rfl, rfl, rfl⟩
+
+/-- After `InstanceFile.parse` no proxy entity and no connection to a proxy is left in the file,
+and every relayed input comes from an `OnProxyRelay` output of a proxy. -/
+theorem C17_io_parse (ents : List IOEnt) :
+    (∀ e ∈ (parseIO ents).ents, e.isProxy = false) ∧
+    (∀ e ∈ (parseIO ents).ents, ∀ o ∈ e.outs,
+        toProxy ((ents.filter (·.isProxy)).map (fun p => foldStr p.name)) o = false) ∧
+    (∀ k p, (k, p) ∈ (parseIO ents).proxyInputs → ∃ e ∈ ents, e.isProxy = true ∧ ∃ o ∈ e.outs,
+        isOnProxyRelay o = true ∧ k = (foldStr o.target, foldStr o.input)) := by
+  refine ⟨parseIO_no_proxy ents, parseIO_no_relay ents, fun k p h => ?_⟩
+  obtain ⟨e, he, hp, o, ho, hr, hk, _⟩ := parseIO_inputs_from_proxies ents k p h
+  exact ⟨e, he, hp, o, ho, hr, hk⟩
+
+/-- Fire counts: a negative count is "unlimited"; otherwise the smaller one. -/
+theorem C17_io_times (a b : Int) :
+    (b < 0 → combineTimes a b = a) ∧ (0 ≤ b → a < 0 → combineTimes a b = b) ∧
+    (0 ≤ a → 0 ≤ b → combineTimes a b = min a b) := combineTimes_spec a b
+
 /-! ## collapse_all terminates -/
 
 /-- **Termination with a bound.** `collapseAll` is a total function (it returns, raises
@@ -428,6 +513,20 @@ example :
 
 example : Trig.Unit (⟨3/5, 4/5, 0, 1, 1, 0⟩ : Trig Rat) := by
   refine ⟨?_, ?_, ?_⟩ <;> decide +kernel
+
+/-- A relay behind a proxy named with capitals: the map's `instance:RELAY;trigger` output ends at
+`inst-Relay` with input `Trigger`, fires once; the relay's connection to the proxy is replaced by the
+outer one. -/
+example :
+    let o (out tg inp : String) (times : Int) (io ii : Option String) : Out :=
+      ⟨out.toList, tg.toList, inp.toList, [], 0, times, io.map (·.toList), ii.map (·.toList), false⟩
+    let ents := [⟨false, "Relay".toList, [o "OnTrigger" "proxy" "ProxyRelay" (-1) none none]⟩,
+                 ⟨true, "Proxy".toList, [o "OnProxyRelay" "Relay" "Trigger" 1 none none]⟩]
+    let I : IOInst := ⟨"inst".toList, .pre, [], [o "OnTrigger" "outer" "FireUser1" (-1) (some "relay") none]⟩
+    let r := collapseIO I ents [o "OnMapSpawn" "inst" "trigger" (-1) none (some "RELAY")]
+    r.outer = [o "OnMapSpawn" "inst-Relay" "Trigger" 1 none none] ∧
+    r.ents = [("inst-Relay".toList, [o "OnTrigger" "outer" "FireUser1" (-1) none none])] := by
+  decide +kernel
 
 example : passThrough ['@','g'] = true ∧ passThrough ['d','o','o','r'] = false := by decide
 
